@@ -31,7 +31,8 @@ struct C01 : Driver {
     int level = pick_level(rng, tier);
     bool seq = rng.below(2);
     c.p["level"] = level; c.p["seq"] = seq;
-    c.data = gen::input(rng, level, pick_max_size(rng, tier, level), &c.data_desc);
+    size_t extra = rng.below(4) == 0 ? (size_t)level * 100000 : 0;    // one case in four: one more block, as in C03, so that 2n+2 output slots fill at small n (seeded change C11-6)
+    c.data = gen::input(rng, level, pick_max_size(rng, tier, level) + extra, &c.data_desc);
     c.runs.push_back(compress_cfg(rng, level, seq, random_workers(rng), true));
     c.runs.push_back(decompress_cfg(rng, random_workers(rng), true, c.data.size() / 2 + 100, c.data.size()));
     if (rng.below(8) == 0) use_default_workers(c.runs[rng.below(2)]);      // no -n: one worker per (simulated) CPU
